@@ -203,6 +203,18 @@ pub fn random_case(seed: u64, label: &str, index: u64, mix: Mix) -> HistoryCase 
                 },
                 "suffix-clash",
             ),
+            1 if r.chance(1, 2) => (
+                Profile {
+                    pool: gen::Pool::ReservedConcat,
+                    max_depth: 4,
+                    max_children: 5,
+                    n_elem_names: (3, 6),
+                    n_attr_names: (1, 2),
+                    n_docs: (1, 3),
+                    ..Profile::general()
+                },
+                "reserved-concat",
+            ),
             1..=6 => (Profile::adversarial(), "adversarial"),
             7 => (
                 if r.chance(1, 4) {
